@@ -372,6 +372,9 @@ func (eng *Engine) discharge(vc *VC, workDir string, timeoutMs int, thorough boo
 							all = false
 							if os.Getenv("GVC_DEBUG") != "" {
 								fmt.Fprintf(os.Stderr, "path-split: %s fails on path %d/%d: %s\n   %s\n", vc.obls[i].Name, pk+1, len(paths[i]), pst, vc.obls[i].Paths[pk])
+								if d := os.Getenv("GVC_KEEPFAIL"); d != "" {
+									os.WriteFile(d, []byte(ptxt), 0o644)
+								}
 							}
 							break
 						}
